@@ -119,6 +119,7 @@ pub fn err_code(msg: &str) -> Option<&'static str> {
         "Unexpected element in main phase" => "um",
         "Unexpected element in end phase" => "ue",
         "Current node doesn't match tag" => "cm",
+        "Unexpected second DOCTYPE in start phase" => "sd",
         _ => return None,
     })
 }
